@@ -1,6 +1,6 @@
 """Per-property configuration of the Kani/CBMC checks (harness overlays, bounds, tiers)."""
 
-COMMON_OVERLAYS = [("layer", "vkl.rs"), ("cel", "vkl.rs"), ("reader", "vkl.rs")]
+COMMON_OVERLAYS = [("layer", "vkl.rs"), ("cel", "vkl.rs"), ("reader", "vkl.rs"), ("palette", "vkl.rs")]
 
 COMMON_ASSUMPTIONS = [
     "Kani 0.68 MIR->goto translation and CBMC 6.11 + CaDiCaL are trusted; rustc dev-profile semantics "
@@ -102,4 +102,47 @@ PROPS["C04"] = dict(
            "with arbitrary u16 nesting levels, cel tables of <= 2 frames x 2 layers with symbolic link targets",
     outside="real zlib inflate (identity model of unzip), payloads longer than the skeletons, allocation failure (C12), "
             "stack depth, the whole-file loop (decided per unit; glue is read_aseprite's ?-propagation)",
+)
+
+
+PROPS["C15"] = dict(
+    prefix="c15_",
+    overlays=[("lib.rs", "vk_c15.rs"), ("parse", "vk_c15p.rs")],
+    bounds="each deciding field over its whole encodable range (u16 / u8 / both pixel-ratio bytes and the depth word with all "
+           "other header bytes symbolic); one chunk per frame for the propagation lemmas",
+    outside="positions of the feature other than the first chunk of the first frame (dispatch is per chunk and stateless "
+            "for these kinds); real zlib payloads",
+)
+
+
+PROPS["C10"] = dict(
+    prefix="c10_",
+    overlays=[("parse", "vk_c10.rs")],
+    mem_gb=9, jobs_quick=5, jobs_thorough=5,
+    bounds="chunk-kind sequences of length <= 6 (11 in the quick tier, 20 in the thorough tier) over layer, cel, slice, tags(2), "
+           "legacy palette 0x0004/0x0011, new palette, ignorable (cel-extra/mask/path), external files and user data; user-data "
+           "text byte and colour symbolic, all four flag combinations",
+    outside="sequences not in the list (no inductive one-step harness was built), text longer than one byte, tags(n) for n != 2, "
+            "user data in frames other than the first",
+)
+
+
+PROPS["C01"] = dict(
+    prefix="c01_",
+    overlays=[("lib.rs", "vk_c01.rs"), ("parse", "vk_c01p.rs"), ("file", "vk_c01f.rs")],
+    bounds="<= 2 entities per chunk (tags, slice keys, external files), names of 0-2 symbolic ASCII bytes, every numeric "
+           "attribute over its full encodable range; header with all unused bytes symbolic and 1-2 empty frames; "
+           "3 layers for name lookup / iteration",
+    outside="longer names and lists, multi-byte UTF-8 names, 3+ frames, palette entries (C11), cels (C06), user data (C10), "
+            "tag_by_name / external_file_by_id / tilesets().get lookups (std collections; not encoded)",
+)
+
+
+PROPS["C11"] = dict(
+    prefix="c11_",
+    overlays=[("palette", "vk_c11.rs"), ("parse", "vk_c11p.rs")],
+    bounds="new-format chunks of 2 entries at first index 0 / 254 with symbolic flags, RGBA and a 1-byte name; legacy chunks of "
+           "2 packets (2 + 1 colours) at concrete skip pairs (0,3) (1,2) (2,1) (0,0) with symbolic components; all 6-bit values; "
+           "2 indexed pixels against a 3-entry sparse palette; both chunk orders for precedence",
+    outside="count byte 0 (= 256 entries), more than 2 packets / entries, symbolic palette indices (hash-map keys are concrete)",
 )
